@@ -161,6 +161,8 @@ fn check(list: &[ds::Horizontal], widths: &[i32], tol: i32, params: &Params, sta
     // exhaustive optimum: every subset of the legal breakpoints that contains all forced ones and the end
     let inner = &lg[..lg.len() - 1];
     let mut best: Option<i64> = None;
+    // minimum demerits per number of lines (for \\looseness)
+    let mut per_lines: std::collections::BTreeMap<usize, i64> = Default::default();
     for mask in 0u32..(1 << inner.len()) {
         let mut bs: Vec<(usize, i32)> = vec![];
         let mut ok = true;
@@ -169,9 +171,24 @@ fn check(list: &[ds::Horizontal], widths: &[i32], tol: i32, params: &Params, sta
         }
         if !ok { continue; }
         bs.push(*lg.last().unwrap());
-        if let Some(t) = total(list, &bs, &lw64, tol as i64, params) { if best.map_or(true, |b| t < b) { best = Some(t) } }
+        if let Some(t) = total(list, &bs, &lw64, tol as i64, params) {
+            if best.map_or(true, |b| t < b) { best = Some(t) }
+            let e = per_lines.entry(bs.len()).or_insert(t);
+            if t < *e { *e = t; }
+        }
     }
     stats[0] += 1;
+    let mut wanted_lines: Option<usize> = None;
+    if params.looseness != 0 {
+        // TeX.2021.875: with n0 = the number of lines of the optimum, the result has n0 + looseness lines when such a
+        // sequence is feasible (ties broken by demerits); otherwise this pass fails (and TeX tries the next one)
+        let Some(b) = best else { return matches!(got, Ok(None)) || { println!("WITNESS {{\"fn\": \"break_line_single_attempt\", \"list\": \"looseness, infeasible\", \"observed\": \"breakpoints\", \"expected\": \"none\"}}"); false } };
+        let n0s: Vec<usize> = per_lines.iter().filter(|(_, d)| **d == b).map(|(n, _)| *n).collect();
+        if n0s.len() != 1 { stats[3] += 1; return true; } // the optimum is not unique in its number of lines: TeX's choice depends on list order
+        let target = n0s[0] as i64 + params.looseness as i64;
+        best = if target >= 1 { per_lines.get(&(target as usize)).copied() } else { None };
+        wanted_lines = Some(target.max(0) as usize);
+    }
     let describe = || format!("{:?}", list.iter().map(|e| match e {
         ds::Horizontal::HBox(h) => format!("box{}", h.width.0 / U), ds::Horizontal::Kern(k) => format!("{}{}", if k.kind == ds::KernKind::Explicit { "kern" } else { "fontkern" }, k.width.0 / U),
         ds::Horizontal::Penalty(p) => format!("pen{}", p.0),
@@ -192,6 +209,7 @@ fn check(list: &[ds::Horizontal], widths: &[i32], tol: i32, params: &Params, sta
             let bs: Option<Vec<(usize, i32)>> = v.iter().map(|i| lg.iter().find(|x| x.0 == *i).copied()).collect();
             match bs {
                 None => fail(format!("breakpoints {:?}", v), "legal breakpoints only".into()),
+                Some(bs) if wanted_lines.map_or(false, |n| n != bs.len()) => fail(format!("breakpoints {:?}: {} lines", v, bs.len()), format!("{} lines (looseness {})", wanted_lines.unwrap(), params.looseness)),
                 Some(bs) => match total(list, &bs, &lw64, tol as i64, params) {
                     None => fail(format!("breakpoints {:?} with a line beyond the tolerance", v), format!("a feasible sequence (minimum total demerits {t})")),
                     Some(g) if g != t => fail(format!("breakpoints {:?} with total demerits {g}", v), format!("minimum total demerits {t}")),
@@ -209,6 +227,8 @@ fn optimal_breaks() {
     let params = Params::plain_tex_defaults();
     let mut params2 = Params::plain_tex_defaults();
     params2.adj_demerits = 3000; params2.line_penalty = 50;
+    let mut params3 = Params::plain_tex_defaults(); params3.looseness = 1;
+    let mut params4 = Params::plain_tex_defaults(); params4.looseness = -1;
     // separators between two boxes: (nodes, ..)
     let seps: Vec<Vec<ds::Horizontal>> = vec![
         vec![glue(1, 1, GlueOrder::Normal, 1)],
@@ -258,6 +278,8 @@ fn optimal_breaks() {
                 for p in [&params, &params2] {
                     if !check(&list, widths, tol, p, &mut stats) { return; }
                 }
+                // \\looseness +-1 on a sixth of the paragraphs
+                if (bi + si) % 6 == 0 { for p in [&params3, &params4] { if !check(&list, widths, tol, p, &mut stats) { return; } } }
             } }
         } }
     }
